@@ -520,6 +520,9 @@ func (p *PipelinedMemDB) Staging() int {
 
 // Cleanup implements MemBuffer interface.
 func (p *PipelinedMemDB) Cleanup(h int) {
+	// BatchGet also caches the values it found in the mutable memdb. Those written inside the stage being
+	// discarded are gone now and must not be served from the cache by a later Get.
+	p.batchGetCache = nil
 	p.memDB.Cleanup(h)
 }
 
